@@ -109,7 +109,10 @@ def roundtrip(spec, o, root):
             sdt = str(df[c].dtype)
             if sdt.startswith("datetime64["):
                 allowed[c] = [re.sub(r"^datetime64\[(s|ms|us)", "datetime64[ns", sdt)]
-    probs = F.compare_frames(df, got, iw, allowed)
+    try:
+        probs = F.compare_frames(df, got, iw, allowed)
+    except Exception as e:      # noqa: a result so damaged that it cannot even be compared (e.g. codes outside the categories)
+        probs = ["result frame is not comparable: %s: %s" % (type(e).__name__, str(e)[:200])]
     return {"outcome": "ok" if not probs else "differs", "problems": probs, "err": None, "path": path,
             "dtypes": {str(c): str(got[c].dtype) for c in got.columns}}
 
